@@ -452,6 +452,11 @@ func main() {
 		fmt.Printf("  %s\n", strings.ReplaceAll(strings.TrimSpace(v.Msg), "\n", "\n  "))
 		exit = 1
 	}
+	// Vacuity guard: a run in which (almost) no case was non-trivial by the check's own rule decided
+	// nothing - e.g. because the tree under test rejects every generated input. That is not a pass.
+	if exit == 0 && replay == "" && os.Getenv("VERIF_COLLECT") == "" && merged.Evals > 0 && int64(len(distinct))*20 < merged.Evals && len(distinct) < 100 {
+		infra = append(infra, fmt.Sprintf("only %d of %d evaluated cases were non-trivial (fewer than 5%% and fewer than 100): the run decides nothing", len(distinct), merged.Evals))
+	}
 	if exit == 0 && len(infra) > 0 {
 		for _, s := range infra {
 			fmt.Printf("INCONCLUSIVE property=%s %s\n", id, s)
